@@ -74,7 +74,7 @@ def outcome_at(outcomes, val, hooks=None):
 
 def grid_compare(rep, rule, key, label, outcomes, grids, oracle,
                  hooks=None, value_eq=None, where=None, skip=None,
-                 allow_cut=False, allow=()):
+                 allow_cut=False, allow=(), derive=None):
     """*grids*: {symbol term: iterable of python values}.
     *oracle(valuation by show(symbol)) -> ('return', v) | ('raise', name) |
     None (input outside the property's domain: skipped)."""
@@ -102,6 +102,11 @@ def grid_compare(rep, rule, key, label, outcomes, grids, oracle,
         named = {show(s): v for s, v in val.items()}
         if skip is not None and skip(named):
             continue
+        if derive is not None:
+            # symbols whose value is a function of the others
+            for sym, x in derive(named).items():
+                val[sym] = x
+                named[show(sym)] = x
         want = oracle(named)
         if want is None:
             continue
